@@ -19,6 +19,7 @@ func init() {
 			ID: "C16",
 			Explanation: "The environment builder is pure map code, so precedence is decided from structure: mapUnion is last-wins (nested range, unconditional store, no test, no delete); the key set each reserved layer can ever hold is computed from the literal tables and from every constant-key store into the layer (a non-constant key in a reserved layer is a violation); RuntimeExecEnv's single union lists the customer map first and all four reserved layers after it, in the documented relative order wherever two layers' key sets intersect; AgentExecEnv unions only customer, credentials and platform, customer first, and filters the result through a predicate that is exactly 'listed exclusion or name starting with _' and a mapExclude that copies exactly the entries failing it; " +
 				"the credential keys are stored unconditionally (so the reserved layer always shadows a customer value), customer-supplied maps flow only into the customer layer, values are copied unchanged ('=' handling: SplitN(...,2) on the way in, key+\"=\"+value on the way out), and the Runtime API address placed in the platform layer is the one the API server object was created with, wired through Start -> SandboxBuilder.Create -> SandboxContext.Init before the init handler starts; the two exec environments are the only producers of the Env of the two process-start requests. " +
+				"Added after the blind rounds: the child environment comes from the request only; reserved values are taken when set (even if empty); optional reserved stores test their own source. " +
 				"NOT decided: the OS-level execve; with --runtime-api-address host:0 the advertised port would differ from the bound one (observation, not armed).",
 			RuleText:    "one obligation per shape rule, per layer key set, per union argument, per wiring edge",
 			Assumptions: trusted,
